@@ -139,6 +139,10 @@ use std::{
 pub use ts_rs_macros::TS;
 
 pub use crate::export::ExportError;
+// Verification hooks (H3); absent from every normal build.
+#[cfg(ts_rs_verif)]
+#[doc(hidden)]
+pub use crate::export::verif as __verif;
 
 #[cfg(feature = "chrono-impl")]
 mod chrono;
